@@ -272,6 +272,6 @@ pub fn run(tier: Tier) -> i32 {
     let mut ctx = Ctx::new("C03", tier);
     ctx.assume("the impostor holds only its own key; a node's certificate is public, so replaying it needs nothing else");
     ctx.assume("Err is always an allowed outcome under loss or when several dials between the same two nodes race each other");
-    ctx.run_part(Dials, tier.pick(5_000, 100_000));
+    ctx.run_part(Dials, tier.pick(5_000, 300_000));
     ctx.finish()
 }
